@@ -93,6 +93,18 @@ PROPS = {
         "not_decided": [],
         "explanation": "",
     },
+    "C15": {
+        "modules": ["contracts.c15_throttle"],
+        "level": "proof",
+        "trusted_base": [T_PY, T_ENGINE, T_SOLVER, T_AIO],
+        "assumptions": ["P-float: clock values, limits and reset periods are reals (IEEE rounding ignored); round(x) is an integer within 1/2 of x", "single owner: the I/O start times seen by one Throttle are non-decreasing"],
+        "not_decided": [
+            "the multi-stream sum bound ('one block in flight per participating stream') for a Throttle shared by several connections: needs a history argument over interleaved owners",
+            "which Throttle objects are shared and which are cloned by Server.dispatcher / Server.user / the passive handlers / the client (wiring; not under contract yet)",
+            "end-to-end durations in real or virtual time",
+        ],
+        "explanation": "",
+    },
     "C10": {
         "modules": ["contracts.c10_limits", "contracts.server_units", "contracts.c03_auth", "contracts.dispatcher_units"],
         "level": "proof",
